@@ -158,6 +158,8 @@ impl FeoxStore {
                     return Err(FeoxError::OlderTimestamp);
                 }
 
+                #[cfg(feoxdb_verif)]
+                crate::verif::yield_point("incr.vacant_window");
                 match self.hash_table.entry(key_vec.clone()) {
                     scc::hash_map::Entry::Occupied(_) => continue,
                     scc::hash_map::Entry::Vacant(entry) => {
@@ -193,6 +195,8 @@ impl FeoxStore {
                 }
             };
 
+            #[cfg(feoxdb_verif)]
+            crate::verif::yield_point("incr.after_read");
             let root = observed.get_or_insert_with(|| Arc::clone(&current));
             if explicit_timestamp.is_some_and(|timestamp| timestamp <= current.timestamp) {
                 return Err(FeoxError::OlderTimestamp);
@@ -227,6 +231,8 @@ impl FeoxStore {
             );
             let new_value = current_value.saturating_add(delta);
             let timestamp = explicit_timestamp.unwrap_or_else(|| self.get_timestamp(key));
+            #[cfg(feoxdb_verif)]
+            crate::verif::yield_point("incr.before_swap");
 
             match self.hash_table.entry(key_vec.clone()) {
                 scc::hash_map::Entry::Occupied(mut entry) => {
@@ -479,6 +485,8 @@ impl FeoxStore {
                 Some(record) => record,
                 None => return Ok(false),
             };
+            #[cfg(feoxdb_verif)]
+            crate::verif::yield_point("cas.after_read");
             let (value, cache_hit, source) = match self.resolve_value(key, record) {
                 Ok(resolved) => resolved,
                 Err(FeoxError::KeyNotFound | FeoxError::StaleExtent) => return Ok(false),
@@ -497,6 +505,8 @@ impl FeoxStore {
         };
 
         let timestamp = self.resolve_timestamp(key, timestamp);
+        #[cfg(feoxdb_verif)]
+        crate::verif::yield_point("cas.before_swap");
         self.replace_record_if_current(
             &key_vec,
             &initial_record,
